@@ -275,6 +275,10 @@ def task_operand_kinds():
     Pr, Wr = _homogeneous_refined(U, 2, P, W1, V, 2)
     Ve = spec.elevate_vector(U, 2, 1)
     Pe, We = _homogeneous_refined(U, 2, P, W1, Ve, 3)
+    # a degree-1 rational curve against its own degree-3 description (elevated twice: the interior knot becomes a triple knot, two more than the lower degree)
+    U1, P1, Wl = [F(0), F(0), F(1, 2), F(1), F(1)], [F(1), F(-2), F(3)], [F(1), F(2), F(3)]
+    V3 = spec.elevate_vector(U1, 1, 2)
+    P3, W3 = _homogeneous_refined(U1, 1, P1, Wl, V3, 3)
     mk = curves.Curve
     lin = lambda: mk([F(0), F(0), F(1), F(1)], [F(0), F(1)])                                     # f(u) = u
     linrat = lambda: mk([F(0)] * 3 + [F(1)] * 3, [F(0), F(1, 3), F(1)], [F(1), F(3, 2), F(2)])   # the same function as a rational quadratic (W(u) = 1 + u)
@@ -287,6 +291,8 @@ def task_operand_kinds():
         ("rational-vs-knot-refined-copy", lambda: mk(list(U), list(P), list(W1)), lambda: mk(list(V), list(Pr), list(Wr)), True),
         ("rational-vs-elevated-copy", lambda: mk(list(U), list(P), list(W1)), lambda: mk(list(Ve), list(Pe), list(We)), True),
         ("rational-vs-perturbed-refined-copy", lambda: mk(list(U), list(P), list(W1)), lambda: mk(list(V), [Pr[0], Pr[1] + F(1, 1000)] + list(Pr[2:]), list(Wr)), False),
+        ("rational-p1-vs-its-p3-description", lambda: mk(list(U1), list(P1), list(Wl)), lambda: mk(list(V3), list(P3), list(W3)), True),
+        ("rational-p1-vs-perturbed-p3-description", lambda: mk(list(U1), list(P1), list(Wl)), lambda: mk(list(V3), [P3[0], P3[1] + F(1, 100)] + list(P3[2:]), list(W3)), False),
         ("polynomial-vs-rational-description", lin, linrat, True),
         ("polynomial-vs-other-rational", lin, linrat2, False),
         ("no-points-same-vector", lambda: mk(list(U)), lambda: mk(list(U)), True),
